@@ -42,6 +42,10 @@ pub trait Env {
     fn allow_close(&self) -> bool {
         false
     }
+    /// when true the scheduler may register the remaining sockets in any order
+    fn any_order(&self) -> bool {
+        false
+    }
 }
 
 pub struct Outcome {
@@ -140,11 +144,14 @@ impl<'a> Exec<'a> {
     /// The exploration loop: run until quiescence, completion, panic or spin.
     pub fn drive(&mut self, env: &mut dyn Env) {
         let mut next_socket = 0usize;
+        let mut registered: Vec<bool> = vec![false; env.n_sockets()];
+        let any_order = env.any_order();
         let mut closed = false;
         #[derive(Clone, Copy)]
         enum Act {
             Poll,
             Register,
+            RegisterAny(usize),
             UnblockSink(usize),
             UnblockStream(usize),
             Depart(usize),
@@ -159,8 +166,16 @@ impl<'a> Exec<'a> {
             if self.flag.0.load(Ordering::SeqCst) {
                 acts.push(Act::Poll);
             }
-            if next_socket < env.n_sockets() && !closed {
-                acts.push(Act::Register);
+            if !closed {
+                if any_order {
+                    for (i, r) in registered.iter().enumerate() {
+                        if !*r {
+                            acts.push(Act::RegisterAny(i));
+                        }
+                    }
+                } else if next_socket < env.n_sockets() {
+                    acts.push(Act::Register);
+                }
             }
             {
                 let g = lock(&self.w);
@@ -177,7 +192,8 @@ impl<'a> Exec<'a> {
                 for i in env.departable(&g) {
                     acts.push(Act::Depart(i));
                 }
-                let h = g.state_hash((self.flag.0.load(Ordering::SeqCst) as u64) | (next_socket as u64) << 1 | (closed as u64) << 8);
+                let regbits: u64 = registered.iter().enumerate().fold(0u64, |a, (i, r)| a | (*r as u64) << (i % 48));
+                let h = g.state_hash((self.flag.0.load(Ordering::SeqCst) as u64) | (next_socket as u64) << 1 | (closed as u64) << 8 | regbits << 9);
                 drop(g);
                 self.out.states.push(h);
             }
@@ -202,8 +218,15 @@ impl<'a> Exec<'a> {
                 Act::Register => {
                     lock(&self.w).ev.push(Ev::EnvRegister(env.label(next_socket)));
                     env.register(next_socket, &self.w);
+                    registered[next_socket] = true;
                     next_socket += 1;
                     self.out.registered = next_socket;
+                }
+                Act::RegisterAny(i) => {
+                    lock(&self.w).ev.push(Ev::EnvRegister(env.label(i)));
+                    env.register(i, &self.w);
+                    registered[i] = true;
+                    self.out.registered += 1;
                 }
                 Act::UnblockSink(i) => {
                     let mut g = lock(&self.w);
